@@ -3,6 +3,7 @@
 from __future__ import annotations
 
 import asyncio
+import itertools
 from typing import Any
 
 from xknx import XKNX
@@ -61,14 +62,15 @@ def w_matrix(own: int) -> Part:
                     for tp, (octet, kind) in TPCIS.items():
                         if not admissible(dest, tp):
                             continue
-                        for prio, hop in ((3, 6), (0, 0)):
+                        for prio, hop, rep, sysb, ack, cerr in [(3, 6, False, False, False, False), (0, 0, False, False, False, False)] + [
+                                (3, 6, *f) for f in itertools.product((False, True), repeat=4) if any(f)]:
                             apdu = None if kind == "control" else APDUS["group" if dest == "group" else "broadcast" if dest == "broadcast" else "individual"]
-                            raw = encode_ldata(code, priority=prio, repeat_on_error=False, system_broadcast=False, ack=False, confirm_error=False, hop_count=hop,
+                            raw = encode_ldata(code, priority=prio, repeat_on_error=rep, system_broadcast=sysb, ack=ack, confirm_error=cerr, hop_count=hop,
                                                dst_is_group=is_group, src=0x1101, dst=dst, tpci_octet=octet, apdu=apdu)
                             xknx = XKNX()
                             xknx.current_address = IndividualAddress(own)
                             calls.clear()
-                            case = {"code": code, "dest": dest, "tpci": tp, "own": own, "raw": raw}
+                            case = {"code": code, "dest": dest, "tpci": tp, "own": own, "raw": raw, "flags(repeat,sysbroadcast,ack,confirm_error)": [rep, sysb, ack, cerr]}
                             part.evaluations += 1
                             try:
                                 xknx.cemi_handler.handle_raw_cemi(raw)
